@@ -227,6 +227,23 @@ def harness(binpath, prop, mode, args=(), input=None, timeout=1800, env=None):
     return p.stdout
 
 
+def harness_parallel(binpath, prop, cases, shards=12, timeout=3000, env=None):
+    """run `<bin> <prop> run` over the cases split into shards, in parallel processes; returns the records in case order"""
+    import concurrent.futures
+    shards = max(1, min(shards, len(cases)))
+    parts = [cases[i::shards] for i in range(shards)]
+
+    def one(part):
+        return jsonl(harness(binpath, prop, "run", input="".join(json.dumps(c) + "\n" for c in part), timeout=timeout, env=env))
+    with concurrent.futures.ThreadPoolExecutor(max_workers=shards) as ex:
+        outs = list(ex.map(one, parts))
+    byid = {}
+    for o in outs:
+        for r in o:
+            byid[r["id"]] = r
+    return [byid[c["id"]] for c in cases if c["id"] in byid]
+
+
 def jsonl(text):
     return [json.loads(l) for l in text.splitlines() if l.strip()]
 
